@@ -22,13 +22,49 @@ type Case struct {
 	// BlockedDial: the (single) target is down at creation and its dial blocks
 	// while a no-send-waiting one-way call is made.
 	BlockedDial bool `json:"blocked_dial,omitempty"`
+	// Interfere (second case shape): K one-way messages with live contexts are sent to a node
+	// whose handler is blocked; then other calls whose context has ended are made on the same
+	// node; all K messages must still be delivered exactly once.
+	Interfere *Interfere `json:"interfere,omitempty"`
 	RecvBuffer  uint `json:"recv_buffer,omitempty"`
 }
 
 var kinds = []string{"QC", "QCPerNode", "QCCombo", "Async", "AsyncPerNode", "AsyncCombo", "Corr", "CorrPerNode", "CorrCombo",
 	"CorrStreamPerNode", "Multicast", "MulticastPerNode", "MulticastPerNode", "Unicast", "QCPerNode", "MulticastPerNode"}
 
+// Interfere describes the second case shape.
+type Interfere struct {
+	K          int    `json:"k"`
+	Multicast  bool   `json:"multicast,omitempty"` // the K messages are multicasts on a configuration instead of unicasts
+	NoSendWait bool   `json:"no_send_wait,omitempty"`
+	Others     int    `json:"others"`
+	// Mode: precancelled (the other calls' contexts end before the call is made) |
+	// during-send (large requests cancelled microseconds after they were issued)
+	Mode     string `json:"mode"`
+	OtherKind string `json:"other_kind"`
+	CancelUs int    `json:"cancel_us,omitempty"`
+}
+
+func genInterfere(t *rapid.T) Case {
+	n := rapid.IntRange(1, 3).Draw(t, "n")
+	c := Case{N: n, Mgr: qeng.GenMgr(t, false)}
+	c.Cfg = seqInts(n)
+	c.Interfere = &Interfere{
+		K:          rapid.IntRange(1, 12).Draw(t, "k"),
+		Multicast:  rapid.Bool().Draw(t, "multicast"),
+		NoSendWait: rapid.Bool().Draw(t, "noSendWait"),
+		Others:     rapid.IntRange(1, 24).Draw(t, "others"),
+		Mode:       rapid.SampledFrom([]string{"precancelled", "precancelled", "precancelled", "precancelled", "precancelled", "precancelled", "precancelled", "during-send"}).Draw(t, "mode"),
+		OtherKind:  rapid.SampledFrom([]string{"Unicast", "RPC", "QC", "Multicast", "Async", "Corr"}).Draw(t, "otherKind"),
+		CancelUs:   rapid.SampledFrom([]int{1, 20, 100}).Draw(t, "cancelUs"),
+	}
+	return c
+}
+
 func gen(t *rapid.T) Case {
+	if rapid.IntRange(0, 5).Draw(t, "shape") == 0 {
+		return genInterfere(t)
+	}
 	n := rapid.IntRange(1, 7).Draw(t, "n")
 	c := Case{N: n, Mgr: qeng.GenMgr(t, false)}
 	c.RecvBuffer = rapid.SampledFrom([]uint{0, 0, 4}).Draw(t, "recvBuffer")
@@ -96,7 +132,127 @@ func seqInts(n int) []int {
 	return s
 }
 
+// runInterfere: one-way messages that were sent with a live context are delivered although
+// other calls on the node end by their context.
+func runInterfere(c Case) vt.Verdict {
+	in := c.Interfere
+	cl := scen.NewCluster(c.N, c.RecvBuffer)
+	defer cl.Shutdown()
+	for i := 0; i < c.N; i++ {
+		cl.Start(i)
+	}
+	client, err := scen.NewClient(cl, c.Mgr)
+	if err != nil {
+		return vt.Verdict{OK: true, Inconclusive: true, Msg: err.Error(), Classes: []string{"setup-error"}}
+	}
+	defer func() {
+		cl.OpenAll()
+		for _, call := range client.Calls() {
+			call.Cancel()
+		}
+		client.Close(scen.B)
+	}()
+	base := scen.NewTokens(2 + in.K + in.Others + c.N)
+	// 1. a handler on every server that blocks without releasing: the servers stop reading
+	for s := 0; s < c.N; s++ {
+		tok := base + uint64(1+in.K+in.Others+s)
+		cl.SetBehaviour(s, tok, scen.Behaviour{Gate: true})
+		b := client.NewCall(1000+s, tok, uint64(1000+s), scen.CallSpec{Kind: "Unicast", Node: s, NoSendWait: true})
+		go b.Issue()
+	}
+	if !cl.Log.WaitFor(scen.B, func(evs []scen.Event) bool {
+		return scen.Count(evs, func(e scen.Event) bool { return e.Kind == "enter" && e.Token > base+uint64(in.K+in.Others) }) >= c.N
+	}) {
+		return vt.Verdict{OK: true, Inconclusive: true, Msg: "blocker handlers did not start"}
+	}
+	// 2. K one-way messages with contexts that never end; every call returns (sent)
+	kind := "Unicast"
+	if in.Multicast {
+		kind = "Multicast"
+	}
+	for i := 0; i < in.K; i++ {
+		call := client.NewCall(i, base+uint64(1+i), uint64(1+i), scen.CallSpec{Kind: kind, Node: 0, Config: 0, NoSendWait: in.NoSendWait})
+		go call.Issue()
+		if r, _ := scen.Await(call.DoneCh(), scen.B); r != scen.Done {
+			return vt.Verdict{OK: true, Inconclusive: true, Msg: "one-way call did not return"}
+		}
+	}
+	if in.NoSendWait {
+		// without send-waiting "returned" does not mean "sent": give the sender a moment
+		time.Sleep(3 * time.Millisecond)
+	}
+	// 3. other calls on the same node(s) that end by their context
+	for j := 0; j < in.Others; j++ {
+		spec := scen.CallSpec{Kind: in.OtherKind, Node: 0, Config: 0, Script: scen.QScript{Kind: "threshold", Q: c.N}}
+		if in.Mode == "precancelled" {
+			spec.Ctx = "precancelled"
+		} else {
+			spec.Ctx, spec.Payload = "cancel", 200000
+		}
+		call := client.NewCall(100+j, base+uint64(1+in.K+j), uint64(100+j), spec)
+		go call.Issue()
+		if in.Mode != "precancelled" {
+			time.Sleep(time.Duration(in.CancelUs) * time.Microsecond)
+			call.Cancel()
+		}
+		if r, sig := scen.Await(call.DoneCh(), scen.B); r == scen.Hung {
+			return vt.Verdict{OK: true, Inconclusive: true, Msg: "an interfering call hung (C08's subject): " + sig}
+		}
+	}
+	time.Sleep(2 * time.Millisecond)
+	// 4. the handlers are released; every message must arrive exactly once
+	cl.OpenAll()
+	targets := 1
+	if in.Multicast {
+		targets = c.N
+	}
+	want := in.K * targets
+	isMsg := func(e scen.Event) bool { return e.Kind == "enter" && e.Token > base && e.Token <= base+uint64(in.K) }
+	// fence: an RPC per node is handled after everything that was sent to the node before it
+	for s := 0; s < c.N; s++ {
+		for attempt := 0; attempt < 4; attempt++ {
+			f := client.NewCall(2000+s, scen.NewTokens(1), uint64(2000+s), scen.CallSpec{Kind: "RPC", Node: s, Ctx: "cancel"})
+			go f.Issue()
+			if r, _ := scen.Await(f.DoneCh(), scen.B); r != scen.Done {
+				return vt.Verdict{OK: true, Inconclusive: true, Msg: "fence RPC did not return"}
+			}
+			if f.Err == nil {
+				break
+			}
+			time.Sleep(2 * time.Millisecond)
+		}
+	}
+	ok := cl.Log.WaitFor(100*time.Millisecond, func(evs []scen.Event) bool { return scen.Count(evs, isMsg) >= want })
+	evs := cl.Log.Snapshot()
+	resets := scen.Count(evs, func(e scen.Event) bool { return e.Kind == "closed" })
+	classes := []string{"shape=interfere", "mode=" + in.Mode, "others=" + in.OtherKind}
+	if resets > 0 {
+		classes = append(classes, "stream-reset-observed")
+	}
+	per := map[string]int{}
+	for _, e := range evs {
+		if isMsg(e) {
+			per[fmt.Sprintf("%d/%d", e.Server, e.Token)]++
+		}
+	}
+	for k, n := range per {
+		if n > 1 {
+			return vt.Verdict{OK: false, Key: "C06/oneway/duplicate-delivery", History: evs, Classes: classes, Msg: "message " + k + " was delivered more than once"}
+		}
+	}
+	if !ok {
+		got := len(per)
+		return vt.Verdict{OK: false, Key: "C06/oneway/lost-after-other-calls-ended/" + in.Mode, History: evs, Classes: classes,
+			Msg: fmt.Sprintf("%d of %d one-way deliveries (%s, contexts that never end, calls returned) never happened after %d other %s calls on the node ended by their context (%s); the node was reachable throughout; streams closed at the servers: %d",
+				want-got, want, kind, in.Others, in.OtherKind, in.Mode, resets)}
+	}
+	return vt.Pass(true, classes...)
+}
+
 func run(c Case) vt.Verdict {
+	if c.Interfere != nil {
+		return runInterfere(c)
+	}
 	kind := c.Call.Kind
 	oneWay := scen.IsOneWay(kind)
 	fam := "twoway"
